@@ -57,10 +57,13 @@ package sessions
 //@   call (*Cache).cachedCookieJar
 //@     assert[C10:jar-of-this-writers-session] arg0 == w.c && arg1 == w.sessionID && w.sessionID != ""
 //@     do jarG = ret0
+//@   ghost jarSets int = 0
 //@   call (http.CookieJar).SetCookies
-//@     assert[C10:backend-cookies-go-to-this-sessions-jar] arg0 == jarG && arg1 == w.urlForCookies && arg2 == cookiesToAdd
+//@     assert[C10:backend-cookies-go-to-this-sessions-jar] arg0 == jarG && arg1 == w.urlForCookies && arg2 == cookiesToAdd && jarSets == 0 && len(cookiesToAdd) > 0
+//@     do jarSets = jarSets + 1
 //@   call (http.ResponseWriter).WriteHeader
 //@     assert[C10:commit-once-with-given-status] commits == 0 && arg0 == w.wrapped && arg1 == statusCode
+//@     assert[C10:every-intercepted-cookie-is-remembered-before-the-commit] jarSets == ite(len(cookiesToAdd) > 0, 1, 0)
 //@     assert[C10:only-the-session-cookie-is-set] (old(w.sessionID) != "" ==> !in("Set-Cookie", rwHeaderOf(w.wrapped)))
 //@     |   && (old(w.sessionID) == "" ==> issued && in("Set-Cookie", rwHeaderOf(w.wrapped)) && len(rwHeaderOf(w.wrapped)["Set-Cookie"]) == 1 && rwHeaderOf(w.wrapped)["Set-Cookie"][0] == cookieText)
 //@     do commits = commits + 1
